@@ -417,19 +417,68 @@ def evalPy (tbl : List (Name × Dunder)) : Py → Except Err Val
     | .iterable _ io => pure (.iterable true (.chain it io))
     | _ => .error .typeError
 
+/-! ## Operands: what can be OBSERVED about a python object next to an operator, and what the builders consult
+
+Between "iterable" and "scalar" lie objects on which the ways of asking "can it be iterated?" disagree: an
+object with `__getitem__` (and maybe `__len__`) but no `__iter__` is NO `collections.abc.Iterable`, yet `iter()`
+accepts it (legacy sequence protocol: `x[0], x[1], …` until IndexError) — a vector / matrix value type, the
+library's own `Poly` and `TableLookup`.  The builders of `StreamMeta` ask `isinstance(other, Iterable)` and
+nothing else. -/
+
+/-- the observable predicates of an operand (the harness measures them on the real object with `isinstance`,
+    `iter`, `hasattr` — not with library code) -/
+structure Operand where
+  self : Term                 -- the object itself, as ONE element
+  isIgnored : Bool            -- `isinstance(x, Stream.__ignored_classes__)`
+  isIterableABC : Bool        -- `isinstance(x, collections.abc.Iterable)`  (has `__iter__`)
+  iterWorks : Bool            -- `iter(x)` does not raise TypeError (`__iter__` or the legacy `__getitem__` protocol)
+  hasGetItem : Bool           -- `hasattr(type(x), "__getitem__")`
+  hasLen : Bool               -- `hasattr(type(x), "__len__")`
+  tag : Nat                   -- identity of the iterator `iter(x)` returns
+  items : List Term           -- what `iter(x)` delivers when it works (first items of an endless one)
+  deriving Repr, Inhabited
+
+/-- **the classification rule**: ignored classes first, then exactly `isIterableABC`; `iterWorks`,
+    `hasGetItem`, `hasLen` are not consulted -/
+def Operand.toVal (o : Operand) : Val :=
+  if o.isIgnored then .ignored o.self
+  else if o.isIterableABC then .iterable false (.list o.tag o.items)
+  else .scalar o.self
+
+/-- the same as a leaf of an expression tree -/
+def Operand.toPy (o : Operand) : Py :=
+  if o.isIgnored then .ignored o.self
+  else if o.isIterableABC then .iterable o.tag o.items
+  else .scalar o.self
+
 end ALV.C01
 
 /-! ## `lazy_misc.elementwise` — the broadcast decorator -/
 
 namespace ALV.C01
 
-/-- Classes of objects handed to a broadcast function, as far as the wrapper's tests tell them apart. -/
+/-- the builtin container a user class derives from (its "behaviour class"); `sequence`: a user
+    `collections.abc.Sequence` that derives from no builtin container -/
+inductive CBase where
+  | list | tuple | set | frozenset | deque | sequence
+  deriving DecidableEq, Repr, Inhabited
+
+/-- Classes of objects handed to a broadcast function.  A kind is the argument's OWN class (`type(arg)`), not
+    only what the wrapper's `isinstance` tests tell apart: `sub base cls` is the proper subclass number `cls`
+    (class identity, as registered by the harness) of `base`, whose constructor takes one iterable. -/
 inductive CKind where
   | scalar | str
   | list | tuple | set | frozenset | deque                              -- fall through to `type_arg(data)`
   | generator | range | enumerate | zip | zipLongest | map | filter     -- `SOME_GEN_TYPES`
   | stream | streamSub                                                  -- `Stream` and its subclasses
+  | sub (base : CBase) (cls : Nat)                                      -- user subclasses: fall through to `type_arg(data)` too
   deriving DecidableEq, Repr, Inhabited
+
+/-- the builtin class `isinstance` sees behind a kind (`none`: the kind is no sized container) -/
+def CKind.base? : CKind → Option CBase
+  | .list => some .list | .tuple => some .tuple | .set => some .set | .frozenset => some .frozenset
+  | .deque => some .deque | .sub b _ => some b
+  | _ => none
 
 /-- `isinstance(arg, Iterable)` -/
 def CKind.isIterable : CKind → Bool
